@@ -18,7 +18,8 @@ RULE = ("Same data-first models and methods as C06 (objective constants, both se
         "s[var], s['name'], s.get(), s[vector] (also slices and reversed views) and s[matrix] (also transposed) "
         "must return the right shape and positions.  Non-trivial = objective constant != 0, or maximise, or >= 2 "
         "variables whose natural order differs from declaration order."
-        '  Also: re-solves, orientation flipped by re-installing the same objective object, and pairs of different handles with equal derived names (x[:], x[::-1]; A[0,:], A[0,::-1]); the objective replaced by a plain number and solved again (objective_value must be that number).')
+        '  Also: re-solves, orientation flipped by re-installing the same objective object, and pairs of different handles with equal derived names (x[:], x[::-1]; A[0,:], A[0,::-1]); the objective replaced by a plain number and solved again (objective_value must be that number).'
+        ' Also (round 6): four generations of a short-lived twin problem (same shape and names, other additive constants) are built, solved and dropped, then clear_degree_cache() and a collection, right before the judged problem is built (id() reuse).')
 BUDGET = {"quick": {"workers": 16, "examples": 50}, "thorough": {"workers": 16, "examples": 1500}}
 ASSUMPTIONS = ["statuses without values or without an objective value are not constrained"]
 MANIFEST = {
@@ -57,6 +58,8 @@ def check(case):
     classes = ["family:" + model["family"], "method:" + method] + (["integer-declarations"] if case.get("integer_declarations") else [])
     desc = f"{solvecases.sample_repr(case)}"
     with quiet():
+        if len(desc) % 2 == 0 and models.short_lived_twin(model, method):
+            classes.append("after-short-lived-twin-with-other-constants")
         try:
             P, b, built = models.build_problem(model)
         except Exception as ex:
